@@ -163,9 +163,17 @@ struct Gen {
         st.cells.push_back(make_cell(c, sc.F, gamma));
         gen_shape(st, force_full); finish(st); return st;
     }
-    Standard dbl(int p1, int p2, C g1, C g2, bool force_full = false) {
+    // two reflects; entered through vnacal_new_add_double_reflect, or (explicit == 1) as the equivalent line /
+    // mapped matrix whose off-diagonal cells are the predefined VNACAL_ZERO handle
+    Standard dbl(int p1, int p2, C g1, C g2, bool force_full = false, int explicit_zero = -1) {
         Standard st; st.entry = Standard::DOUBLE; st.k = 2; st.ports = {p1, p2};
-        st.cells.push_back(make_cell(c, sc.F, g1)); st.cells.push_back(make_cell(c, sc.F, g2));
+        if (explicit_zero < 0) explicit_zero = c.chance(1, 3) ? 1 : 0;
+        if (explicit_zero) {
+            st.entry = c.boolean() ? Standard::LINE : Standard::MAPPED;
+            SCell z; z.kind = SCell::MATCH; z.v.assign(sc.F, C(0, 0));
+            st.cells = {make_cell(c, sc.F, g1), z, z, make_cell(c, sc.F, g2)};
+            c.label("explicit-zero-off-diagonal");
+        } else { st.cells.push_back(make_cell(c, sc.F, g1)); st.cells.push_back(make_cell(c, sc.F, g2)); }
         gen_shape(st, force_full); finish(st); return st;
     }
     Standard through(int p1, int p2, bool force_full = false) {
